@@ -115,3 +115,126 @@ def replay_details():
                     "pd_stride": [int(x) for x in cd.pd_stride], "num_eval": int(cd.num_eval)})
     return bad, {"call": "details.make_details(<parallelepiped>, length, offset, num_weights)", "real": out,
                  "spec": "distinct slots carrying their lengths; all non-unit lengths in slots; strides = running products"}
+
+
+# --------------------------------------------------------------------------
+# details.make_kernel_args: layout of the values vector handed to the kernels
+# --------------------------------------------------------------------------
+
+class ParStub(object):
+    def __init__(self, relative_pd):
+        self.relative_pd = relative_pd
+
+
+def make_kernel_args_contract(reg, prop, tier):
+    """For n = 1..3 kernel parameters (non-magnetic) and symbolic distribution lengths:
+      V1 values[0:2+n] = scale, background and, per parameter, the centre value -- or the single surviving point of a
+         relative (size) distribution of length one
+      V2 values[2+n + offset_i + k] = dispersity_i[k],  values[2+n + NW + offset_i + k] = weight_i[k]
+      V3 make_details receives length_i = len(weight_i), offset_i = sum_{i' < i} length_i', num_weights = NW
+      V4 the vector is padded with zeros to a multiple of 32 values
+    """
+    import sasmodels.details as live
+    fn = "sasmodels.details.make_kernel_args"
+    shapes = [(1, (True,)), (2, (True, False)), (3, (False, True, True))]
+    for n, rel in shapes:
+        def body(it, n=n, rel=rel):
+            Ls = [z3.Int("L_%d" % i) for i in range(n)]
+            it.assume(z3.And(*[x >= 0 for x in Ls]))
+            mesh = []
+            vals, disp, wts = [], [], []
+            for i in range(n + 2):
+                v = z3.Real("value_%d" % i)
+                if i < 2:
+                    d = it.array_from_fn(lambda j, v=v: v, 1, "real", "d_common")
+                    w = it.array_from_fn(lambda j: z3.RealVal(1), 1, "real", "w_common")
+                else:
+                    d = it.new_array("dispersity_%d" % (i - 2), Ls[i - 2], "real")
+                    w = it.new_array("weight_%d" % (i - 2), Ls[i - 2], "real")
+                    disp.append(d)
+                    wts.append(w)
+                vals.append(v)
+                mesh.append((Sym(v), d, w))
+            cps = [ParStub(False), ParStub(False)] + [ParStub(r) for r in rel]
+            pars = it.new_obj(None, {"npars": n, "nvalues": n + 2, "call_parameters": cps, "nmagnetic": 0}, "parameters")
+            info = it.new_obj(None, {"parameters": pars}, "info")
+            from vp.pyvc import DType
+            kernel = it.new_obj(None, {"info": info, "dtype": DType("f8")}, "kernel")
+            seen = {}
+
+            def make_details(it_, a, k):
+                seen["args"] = a
+                return it_.new_obj(None, {}, "call_details")
+            it.summaries["sasmodels.details.make_details"] = Summary(make_details, "make_details (contract D1-D5)")
+            it.summaries["sasmodels.details.convert_magnetism"] = Summary(
+                lambda it_, a, k: seen.update(mag=a) or False, "convert_magnetism (contract C06)", contract=False)
+            f = it.get_func("sasmodels.details", "make_kernel_args")
+            out = it.call(f, [kernel, it.new_list(mesh)])
+            pc = list(it.pc)
+            cd, data, mag = out if isinstance(out, tuple) else tuple(out.items)
+            tag = "n%d" % n
+            if not isinstance(data, SArr) or "args" not in seen:
+                reg.undecided("%s.make_kernel_args.engine.%s" % (prop, tag), "values vector is not an array", function=fn)
+                return
+            NW = z3.Sum(Ls) if n > 1 else Ls[0]
+            offs = [z3.Sum(Ls[:i]) if i > 1 else (Ls[0] if i == 1 else z3.IntVal(0)) for i in range(n)]
+            rp = lambda mdl=None: replay_kernel_args()
+            v1 = [data.at(0) == vals[0], data.at(1) == vals[1]]
+            for i in range(n):
+                centre = vals[i + 2]
+                if rel[i]:
+                    centre = z3.If(Ls[i] == 1, disp[i].at(0), vals[i + 2])
+                v1.append(data.at(2 + i) == centre)
+            reg.prove("%s.make_kernel_args.V1_scalars_are_centres_or_the_single_surviving_point.%s" % (prop, tag), pc,
+                      z3.And(*v1), function=fn, replay=rp)
+            k = z3.Int("k")
+            for i in range(n):
+                reg.prove("%s.make_kernel_args.V2_dispersity_and_weight_blocks.%s.par%d" % (prop, tag, i),
+                          pc + [k >= 0, k < Ls[i]],
+                          z3.And(data.at(2 + n + offs[i] + k) == disp[i].at(k),
+                                 data.at(2 + n + NW + offs[i] + k) == wts[i].at(k)), function=fn, replay=rp, timeout_ms=60000)
+            a = seen["args"]
+            length, offset, nw = a[1], a[2], a[3]
+            v3 = [z3.BoolVal(isinstance(length, SArr) and isinstance(offset, SArr))]
+            if isinstance(length, SArr) and isinstance(offset, SArr):
+                for i in range(n):
+                    v3 += [length.at(i) == Ls[i], offset.at(i) == offs[i]]
+                v3.append((nw.e if isinstance(nw, Sym) else z3.IntVal(int(nw))) == NW)
+            reg.prove("%s.make_kernel_args.V3_lengths_offsets_and_total_handed_to_make_details.%s" % (prop, tag), pc,
+                      z3.And(*v3), function=fn, replay=rp)
+            dl = data.length()
+            dle = dl.e if isinstance(dl, Sym) else z3.IntVal(dl)
+            reg.prove("%s.make_kernel_args.V4_padded_with_zeros_to_a_multiple_of_32.%s" % (prop, tag),
+                      pc + [k >= 2 + n + 2 * NW, k < dle],
+                      z3.And(dle % 32 == 0, dle >= 2 + n + 2 * NW, dle < 2 + n + 2 * NW + 32, data.at(k) == 0), function=fn,
+                      replay=rp)
+            it.discharge_sides(reg, "%s.make_kernel_args.%s" % (prop, tag), function=fn)
+        it = Interp(reg)
+        it.poison_one_arm = False
+        try:
+            it.run_paths(body)
+        except OutsideSubset as exc:
+            reg.undecided("%s.make_kernel_args.engine.n%d" % (prop, n), "outside subset: %s" % exc, function=fn)
+    reg.assume("make_kernel_args: 1..3 non-magnetic kernel parameters enumerated, distribution lengths symbolic; the magnetic "
+               "conversion is C06's contract")
+
+
+def replay_kernel_args():
+    import numpy as np
+    from sasmodels import core, details
+    from sasmodels.direct_model import get_mesh
+    m = core.load_model("cylinder")
+    k = m.make_kernel([np.array([0.1])])
+    pars = dict(radius=20.0, radius_pd=0.2, radius_pd_n=5, length=300.0, length_pd=0.1, length_pd_n=3, theta=10.0)
+    mesh = get_mesh(m.info, pars, dim="1d")
+    cd, data, mag = details.make_kernel_args(k, mesh)
+    n = m.info.parameters.npars
+    disp = [np.atleast_1d(v[1]) for v in mesh[2:2 + n]]
+    wts = [np.atleast_1d(v[2]) for v in mesh[2:2 + n]]
+    NW = sum(len(d) for d in disp)
+    want = np.hstack([[v[0] for v in mesh[:2 + n]]] + disp + wts)
+    got = np.asarray(data)
+    bad = len(got) % 32 != 0 or not np.allclose(got[:len(want)], want) or np.any(got[len(want):] != 0) \
+        or int(cd.num_weights) != NW
+    return bool(bad), {"call": "make_kernel_args(<cylinder kernel>, mesh with radius_pd_n=5, length_pd_n=3)",
+                       "real": got[:len(want) + 2].tolist(), "spec": want.tolist()}
